@@ -155,7 +155,11 @@ def run(prog, chk):
                 exit_txt = SX.show(c.e)
     chk.ob('R14.1', pratt, pratt.ln, exit_ok, 'the Pratt loop stops exactly when lbp(next operator) < current minimum (found %s)' % locals().get('exit_txt', 'no such test'), key='pratt-exit')
     recs = [c for c in g.calls(lambda e: e['k'] == 'mcall' and e['callee'] == pratt.name)]
-    rec_ok = len(recs) == 1 and 'rbp' in SX.show(SX.real_args(recs[0].e)[0]) and SX.show(SX.real_args(recs[0].e)[0]).startswith('binding')
+    from ..kcanon import Canon
+    _cn = Canon(prog, pratt)
+    # the binding power may reach the recursive call through a local (a value parameter of an extracted helper)
+    _arg = SX.show(_cn.expand(SX.strip(SX.real_args(recs[0].e)[0]))) if len(recs) == 1 else ''
+    rec_ok = len(recs) == 1 and 'rbp' in _arg and _arg.startswith('binding')
     chk.ob('R14.1', pratt, recs[0].ln if recs else pratt.ln, rec_ok, 'the right operand of an infix operator is parsed with that operator\'s rbp', key='pratt-recursion')
     pre = prog.fn('Parser::parsePrefixExpression')
     pcalls = [n for n in SX.walk(pre.body) if n['k'] == 'mcall' and n['callee'] == pratt.name]
@@ -233,13 +237,7 @@ def run(prog, chk):
     sites = {}
     for name in ('isTypeAhead', 'parseType', 'parsePrimitiveType'):
         f = prog.fn('Parser::' + name)
-        toks = set()
-        for n in SX.walk(f.body):
-            if n['k'] == 'mcall' and SX.short(n['callee']) == 'check' and SX.real_args(n):
-                a = SX.strip(SX.real_args(n)[0])
-                if a.get('kind') == 'enum':
-                    toks.add(a['name'].split('::')[-1])
-        sites[name] = toks
+        sites[name] = _tested_tokens(prog, f, ('check',))
     prims_tok = {t for s, t in kw.items() if s in prim_doc} | {kw[s] for s in ('long', 'boolean') if s in kw}
     base = sites['parsePrimitiveType'] & set(kw.values())
     for name, toks in sites.items():
@@ -292,12 +290,7 @@ def run(prog, chk):
         m1 = re.match(r'\s*"(\w+)"', alt)
         if m1 and m1.group(1) in kw:
             stmt_kw.append(m1.group(1))
-    dispatched = set()
-    for n in SX.walk(ps.body):
-        if n['k'] == 'mcall' and SX.short(n['callee']) in ('match', 'check') and SX.real_args(n):
-            a = SX.strip(SX.real_args(n)[0])
-            if a.get('kind') == 'enum':
-                dispatched.add(a['name'].split('::')[-1])
+    dispatched = _tested_tokens(prog, ps, ('match', 'check'))
     for k in stmt_kw:
         chk.ob('R14.4', ps, ps.ln, kw[k] in dispatched, 'statement keyword "%s" is dispatched in parseStatement' % k, key='stmt:' + k, nontrivial=False)
     chk.count('statement keywords in the grammar', len(stmt_kw), 7)
@@ -416,3 +409,48 @@ def _typeahead_table(prog, chk):
            key='typeahead-table')
     chk.count('look-ahead token patterns', n, 12)
 
+
+
+_PRED_CACHE = {}
+
+
+def _tested_tokens(prog, f, testers):
+    """token kinds a parser function tests: arguments of check()/match(), labels of a `switch` over a token's kind, and the kinds
+    for which a token-kind predicate it calls (`isPrimitiveTypeToken(peek().type)`) is true — the predicate is evaluated from its own
+    syntax tree on every enumerator"""
+    toks = set()
+    enum = [v for k_, v in prog.facts.enums.items() if k_.endswith('::TokenType')]
+    consts = enum[0]['constants'] if enum else []
+    ename = enum[0]['name'] if enum else ''
+    for n in SX.walk(f.body):
+        if n['k'] == 'mcall' and SX.short(n['callee']) in testers and SX.real_args(n):
+            a = SX.strip(SX.real_args(n)[0])
+            if a.get('kind') == 'enum':
+                toks.add(a['name'].split('::')[-1])
+        if n['k'] == 'switch' and SX.is_node(n.get('c')) and SX.strip(n['c']).get('k') == 'member' and SX.strip(n['c']).get('name') == 'type' \
+                and 'Token' in (SX.strip(SX.strip(n['c']).get('base')).get('t', '') if SX.is_node(SX.strip(n['c']).get('base')) else ''):
+            for c in SX.walk(n['body']):
+                if c['k'] == 'case' and SX.is_node(c.get('v')) and SX.strip(c['v']).get('kind') == 'enum':
+                    toks.add(SX.strip(c['v'])['name'].split('::')[-1])
+        if n['k'] == 'bin' and n.get('op') in ('==', '!='):
+            for x in (SX.strip(n['l']), SX.strip(n['r'])):
+                if SX.is_node(x) and x.get('k') == 'ref' and x.get('kind') == 'enum' and '::TokenType::' in x.get('name', ''):
+                    toks.add(x['name'].split('::')[-1])
+        if n['k'] in ('call', 'mcall') and len(SX.real_args(n)) == 1 and consts:
+            a = SX.strip(SX.real_args(n)[0])
+            if SX.is_node(a) and a.get('k') in ('member', 'ref') and 'TokenType' in (a.get('t') or '') and a.get('kind') != 'enum':
+                ts = [t for t in prog.resolve(n) if t.body]
+                if len(ts) == 1 and len(ts[0].params) == 1 and (ts[0].ret or '') == 'bool' and 'TokenType' in (ts[0].params[0].get('type') or ''):
+                    if ts[0].key not in _PRED_CACHE:
+                        from ..kabs import Interp
+                        acc = set()
+                        try:
+                            for cst in consts:
+                                if Interp(prog, {}, max_steps=3000).call_fn(ts[0], [ename + '::' + cst]) is True:
+                                    acc.add(cst)
+                        except Exception:
+                            acc = None
+                        _PRED_CACHE[ts[0].key] = acc
+                    if _PRED_CACHE[ts[0].key]:
+                        toks |= _PRED_CACHE[ts[0].key]
+    return toks
